@@ -116,6 +116,29 @@ fn first_diff(a: &str, b: &str) -> String {
     format!("first difference at canonical offset {i}: written ..{}.. read ..{}..", cut(a), cut(b))
 }
 
+/// Name of the struct field whose value contains the first difference (nearest `name:` before it in
+/// the canonical text of what was written).
+fn diff_field(a: &str, b: &str) -> String {
+    let i = a.bytes().zip(b.bytes()).position(|(x, y)| x != y).unwrap_or(a.len().min(b.len()));
+    let s = a.as_bytes();
+    let ident = |c: u8| c.is_ascii_alphanumeric() || c == b'_';
+    let mut j = i.min(s.len().saturating_sub(1));
+    while j > 0 {
+        if s[j] == b':' && ident(s[j - 1]) {
+            let mut k = j;
+            while k > 0 && ident(s[k - 1]) {
+                k -= 1;
+            }
+            // a field name starts with a lower-case letter and follows `{`, `,` or `(`
+            if s[k].is_ascii_lowercase() && (k == 0 || matches!(s[k - 1], b'{' | b',' | b'(')) {
+                return String::from_utf8_lossy(&s[k..j]).into_owned();
+            }
+        }
+        j -= 1;
+    }
+    "value".to_string()
+}
+
 // ---------------------------------------------------------------------------------------------
 // encoders / readers (the protocol recovery uses)
 // ---------------------------------------------------------------------------------------------
@@ -284,7 +307,7 @@ fn compare(w: &Written, img: &[u8]) -> Result<Option<(String, String)>, String> 
                 }
                 let c = canon(d);
                 if c != w.canons[i] {
-                    return Ok(Some(("delta".into(), format!("entry {i}: {}", first_diff(&w.canons[i], &c)))));
+                    return Ok(Some((format!("delta.{}", diff_field(&w.canons[i], &c)), format!("entry {i}: {}", first_diff(&w.canons[i], &c)))));
                 }
             }
             if got.len() < w.wal.len() {
@@ -303,7 +326,7 @@ fn compare(w: &Written, img: &[u8]) -> Result<Option<(String, String)>, String> 
             for (i, d) in ds.iter().enumerate() {
                 let c = canon(d);
                 if c != w.canons[i] {
-                    return Ok(Some(("delta".into(), format!("record {i}: {}", first_diff(&w.canons[i], &c)))));
+                    return Ok(Some((format!("delta.{}", diff_field(&w.canons[i], &c)), format!("record {i}: {}", first_diff(&w.canons[i], &c)))));
                 }
             }
             Ok(None)
@@ -318,11 +341,11 @@ fn compare(w: &Written, img: &[u8]) -> Result<Option<(String, String)>, String> 
             }
             for (i, k) in w.chk_keys.iter().enumerate() {
                 match state.get(k) {
-                    None => return Ok(Some(("state".into(), format!("key {k:?} missing")))),
+                    None => return Ok(Some(("state.key-missing".into(), format!("key {k:?} missing")))),
                     Some(v) => {
                         let c = canon(v);
                         if c != w.canons[i] {
-                            return Ok(Some(("state".into(), format!("key {k:?}: {}", first_diff(&w.canons[i], &c)))));
+                            return Ok(Some((format!("state.{}", diff_field(&w.canons[i], &c)), format!("key {k:?}: {}", first_diff(&w.canons[i], &c)))));
                         }
                     }
                 }
@@ -355,20 +378,21 @@ fn roundtrip_storage(u: &Universe, enc: &'static str, ids: &[Id]) -> (Option<Fou
         let h = imgx::fnv64(w.canons.join("\n").as_bytes()) ^ imgx::fnv64(enc.as_bytes());
         Ok::<_, String>((compare(&w, &w.image), h, w.image.len()))
     }));
-    let fail = |mism: &str, detail: String| {
+    // a differing field names the defect; for errors and panics the CRDT kind does
+    let fail = |with_kind: bool, mism: &str, detail: String| {
         Some(Found {
-            sig: format!("roundtrip {enc} {} batch={}: {mism}", kinds_of(u, ids), ids.len()),
+            sig: if with_kind { format!("roundtrip {enc} {}: {mism}", kinds_of(u, ids)) } else { format!("roundtrip {enc}: {mism}") },
             detail: format!("{enc} round trip of [{}]: {detail}", labels()),
             replay: replay.clone(),
         })
     };
     match r {
-        Err(p) => (fail("panic", vh::panic_text(&p)), 0),
-        Ok(Err(e)) => (fail("encode-error", e), 0),
+        Err(p) => (fail(true, "panic", vh::panic_text(&p)), 0),
+        Ok(Err(e)) => (fail(true, "encode-error", e), 0),
         Ok(Ok((c, h, _))) => match c {
             Ok(None) => (None, h),
-            Ok(Some((what, d))) => (fail(&format!("value-differs({what})"), d), h),
-            Err(e) => (fail("undamaged-image-rejected", e), h),
+            Ok(Some((what, d))) => (fail(false, &format!("value-differs({what})"), d), h),
+            Err(e) => (fail(true, "undamaged-image-rejected", e), h),
         },
     }
 }
@@ -389,8 +413,9 @@ fn roundtrip_gossip(u: &Universe, kind: &'static str, ids: &[Id], canons: &[&Str
     let replay = json!({"part": "roundtrip", "encoding": "gossip", "message": kind, "ids": ids_json(ids)});
     let labels = || ids.iter().map(|i| u.label(*i)).collect::<Vec<_>>().join(" | ");
     let fail = |mism: &str, detail: String| {
+        let with_kind = !mism.starts_with("value-differs");
         Some(Found {
-            sig: format!("roundtrip gossip {kind} {} batch={}: {mism}", kinds_of(u, ids), ids.len()),
+            sig: if with_kind { format!("roundtrip gossip {}: {mism}", kinds_of(u, ids)) } else { format!("roundtrip gossip: {mism}") },
             detail: format!("gossip {kind} round trip of [{}]: {detail}", labels()),
             replay: replay.clone(),
         })
@@ -398,8 +423,8 @@ fn roundtrip_gossip(u: &Universe, kind: &'static str, ids: &[Id], canons: &[&Str
     let x = ids[0][0] + ids[0][1];
     let r = catch_unwind(AssertUnwindSafe(|| {
         let msg = make_msg(kind, ids.iter().map(|i| u.delta(*i)).collect(), x);
-        let bytes = msg.serialize().map_err(|e| ("serialize-error", e.to_string()))?;
-        let back = GossipMessage::deserialize(&bytes).map_err(|e| ("deserialize-error", format!("{e}; message: {}", String::from_utf8_lossy(&bytes[..bytes.len().min(300)]))))?;
+        let bytes = msg.serialize().map_err(|e| ("serialize-error".to_string(), e.to_string()))?;
+        let back = GossipMessage::deserialize(&bytes).map_err(|e| ("deserialize-error".to_string(), format!("{e}; message: {}", String::from_utf8_lossy(&bytes[..bytes.len().min(300)]))))?;
         // envelope: everything except the deltas, compared on the canonical form
         let strip = |m: &GossipMessage| -> GossipMessage {
             match m.clone() {
@@ -413,16 +438,16 @@ fn roundtrip_gossip(u: &Universe, kind: &'static str, ids: &[Id], canons: &[&Str
         };
         let (a, b) = (canon(&strip(&msg)), canon(&strip(&back)));
         if a != b {
-            return Err(("value-differs(envelope)", first_diff(&a, &b)));
+            return Err((format!("value-differs(envelope.{})", diff_field(&a, &b)), first_diff(&a, &b)));
         }
         let ds = back.into_deltas().unwrap_or_default();
         if ds.len() != ids.len() {
-            return Err(("value-differs(delta-count)", format!("{} deltas read, {} written", ds.len(), ids.len())));
+            return Err(("value-differs(delta-count)".to_string(), format!("{} deltas read, {} written", ds.len(), ids.len())));
         }
         for (i, d) in ds.iter().enumerate() {
             let c = canon(d);
             if &c != canons[i] {
-                return Err(("value-differs(delta)", format!("delta {i}: {}", first_diff(canons[i], &c))));
+                return Err((format!("value-differs(delta.{})", diff_field(canons[i], &c)), format!("delta {i}: {}", first_diff(canons[i], &c))));
             }
         }
         Ok(())
@@ -430,7 +455,7 @@ fn roundtrip_gossip(u: &Universe, kind: &'static str, ids: &[Id], canons: &[&Str
     let h = imgx::fnv64(canons.iter().map(|s| s.as_str()).collect::<Vec<_>>().join("\n").as_bytes()) ^ imgx::fnv64(kind.as_bytes());
     match r {
         Err(p) => (fail("panic", vh::panic_text(&p)), h),
-        Ok(Err((m, d))) => (fail(m, d), h),
+        Ok(Err((m, d))) => (fail(&m, d), h),
         Ok(Ok(())) => (None, h),
     }
 }
@@ -483,44 +508,44 @@ fn regions_of(w: &Written) -> imgx::Regions {
             let mut r = imgx::Regions::new();
             let mut off = 0;
             for (_, d, _) in &w.wal {
-                r.push(("entry.len".into(), off, off + 4));
-                r.push(("entry.stamp".into(), off + 4, off + 12));
-                r.push(("entry.crc".into(), off + 12, off + 16));
-                r.push(("entry.payload".into(), off + 16, off + 16 + d.len()));
+                r.push(("entry.len", off, off + 4));
+                r.push(("entry.stamp", off + 4, off + 12));
+                r.push(("entry.crc", off + 12, off + 16));
+                r.push(("entry.payload", off + 16, off + 16 + d.len()));
                 off += 16 + d.len();
             }
             r
         }
         "segment" => vec![
-            ("header.magic".into(), 0, 4),
-            ("header.version".into(), 4, 5),
-            ("header.flags".into(), 5, 6),
-            ("header.record_count".into(), 6, 10),
-            ("header.min_timestamp".into(), 10, 18),
-            ("header.max_timestamp".into(), 18, 26),
-            ("header.crc".into(), 26, 30),
-            ("header.padding".into(), 30, 40),
-            ("records".into(), 40, n - 24),
-            ("footer.data_crc".into(), n - 24, n - 20),
-            ("footer.uncompressed_size".into(), n - 20, n - 12),
-            ("footer.compressed_size".into(), n - 12, n - 4),
-            ("footer.magic".into(), n - 4, n),
+            ("header.magic", 0, 4),
+            ("header.version", 4, 5),
+            ("header.flags", 5, 6),
+            ("header.record_count", 6, 10),
+            ("header.min_timestamp", 10, 18),
+            ("header.max_timestamp", 18, 26),
+            ("header.crc", 26, 30),
+            ("header.padding", 30, 40),
+            ("records", 40, n - 24),
+            ("footer.data_crc", n - 24, n - 20),
+            ("footer.uncompressed_size", n - 20, n - 12),
+            ("footer.compressed_size", n - 12, n - 4),
+            ("footer.magic", n - 4, n),
         ],
         _ => vec![
-            ("header.magic".into(), 0, 4),
-            ("header.version".into(), 4, 5),
-            ("header.flags".into(), 5, 6),
-            ("header.padding".into(), 6, 8),
-            ("header.key_count".into(), 8, 16),
-            ("header.timestamp".into(), 16, 24),
-            ("header.last_segment".into(), 24, 32),
-            ("header.reserved".into(), 32, 44),
-            ("header.crc".into(), 44, 48),
-            ("data_len".into(), 48, 52),
-            ("data".into(), 52, n - 16),
-            ("footer.data_crc".into(), n - 16, n - 12),
-            ("footer.data_size".into(), n - 12, n - 4),
-            ("footer.crc".into(), n - 4, n),
+            ("header.magic", 0, 4),
+            ("header.version", 4, 5),
+            ("header.flags", 5, 6),
+            ("header.padding", 6, 8),
+            ("header.key_count", 8, 16),
+            ("header.timestamp", 16, 24),
+            ("header.last_segment", 24, 32),
+            ("header.reserved", 32, 44),
+            ("header.crc", 44, 48),
+            ("data_len", 48, 52),
+            ("data", 52, n - 16),
+            ("footer.data_crc", n - 16, n - 12),
+            ("footer.data_size", n - 12, n - 4),
+            ("footer.crc", n - 4, n),
         ],
     }
 }
@@ -534,16 +559,29 @@ struct DStats {
     accepted_identical: u64,
     max_alloc: usize,
     max_alloc_image: usize,
-    outcomes: BTreeMap<String, u64>,
+    skipped_images: u64,
+    outcomes: BTreeMap<(&'static str, &'static str, &'static str, String), u64>,
 }
 
 impl DStats {
+    fn bump(&mut self, enc: &'static str, kind: &'static str, region: &'static str, outcome: &str) {
+        match self.outcomes.iter_mut().find(|(k, _)| k.0 == enc && k.1 == kind && k.2 == region && k.3 == outcome) {
+            Some((_, v)) => *v += 1,
+            None => {
+                self.outcomes.insert((enc, kind, region, outcome.to_string()), 1);
+            }
+        }
+    }
+    fn table(&self) -> BTreeMap<String, u64> {
+        self.outcomes.iter().map(|((e, k, r, o), v)| (format!("{e} {k} {r} -> {o}"), *v)).collect()
+    }
     fn merge(&mut self, o: DStats) {
         self.evaluations += o.evaluations;
         self.nontrivial += o.nontrivial;
         self.identity += o.identity;
         self.detected += o.detected;
         self.accepted_identical += o.accepted_identical;
+        self.skipped_images += o.skipped_images;
         if o.max_alloc > self.max_alloc {
             self.max_alloc = o.max_alloc;
             self.max_alloc_image = o.max_alloc_image;
@@ -557,12 +595,12 @@ impl DStats {
 fn eval_damage(w: &Written, regs: &imgx::Regions, mu: Mutation, st: &mut DStats) -> Option<Found> {
     st.evaluations += 1;
     let first = mu.first_changed(&w.image);
-    let region = first.map(|o| imgx::region_of(regs, o).to_string()).unwrap_or_else(|| "identity".into());
-    let class = format!("{} {} {}", w.enc, mu.kind(), region);
+    let region: &'static str = first.map(|o| imgx::region_of(regs, o)).unwrap_or("identity");
+    let (enc, kind) = (w.enc, mu.kind());
     let img = mu.apply(&w.image);
     let fail = |mism: String, detail: String| {
         Some(Found {
-            sig: format!("damage {class}: {mism}"),
+            sig: format!("damage {enc} {kind} {region}: {mism}"),
             detail: format!("{} image of {} bytes (values {:?}), mutation {:?}: {detail}", w.enc, w.image.len(), w.ids, mu),
             replay: json!({"part": "damage", "encoding": w.enc, "ids": ids_json(&w.ids), "image_hex": imgx::hex(&w.image), "mutation": mu.to_json()}),
         })
@@ -577,39 +615,39 @@ fn eval_damage(w: &Written, regs: &imgx::Regions, mu: Mutation, st: &mut DStats)
     let r = match r {
         Ok(r) => r,
         Err(p) => {
-            *st.outcomes.entry(format!("{class} -> VIOLATION panic")).or_insert(0) += 1;
+            st.bump(enc, kind, region, "VIOLATION panic");
             return fail("panic".into(), format!("reader panicked: {}", vh::panic_text(&p)));
         }
     };
     if amax > ALLOC_C0 + ALLOC_C1 * w.image.len() {
-        *st.outcomes.entry(format!("{class} -> VIOLATION allocation")).or_insert(0) += 1;
+        st.bump(enc, kind, region, "VIOLATION allocation");
         return fail("allocation-unbounded".into(), format!("a single allocation of {amax} bytes was requested while reading a {}-byte image", img.len()));
     }
     match (first, r) {
         (None, Ok(None)) => {
             st.identity += 1;
-            *st.outcomes.entry(format!("{class} -> unchanged image accepted")).or_insert(0) += 1;
+            st.bump(enc, kind, region, "unchanged image accepted");
             None
         }
         (None, Err(e)) => {
-            *st.outcomes.entry(format!("{class} -> VIOLATION undamaged rejected")).or_insert(0) += 1;
+            st.bump(enc, kind, region, "VIOLATION undamaged rejected");
             fail("undamaged-image-rejected".into(), e)
         }
         (Some(_), Err(_)) => {
             st.nontrivial += 1;
             st.detected += 1;
-            *st.outcomes.entry(format!("{class} -> reported")).or_insert(0) += 1;
+            st.bump(enc, kind, region, "reported");
             None
         }
         (Some(_), Ok(None)) => {
             st.nontrivial += 1;
             st.accepted_identical += 1;
-            *st.outcomes.entry(format!("{class} -> accepted, data identical")).or_insert(0) += 1;
+            st.bump(enc, kind, region, "accepted, data identical");
             None
         }
         (_, Ok(Some((what, d)))) => {
             st.nontrivial += 1;
-            *st.outcomes.entry(format!("{class} -> VIOLATION different data ({what})")).or_insert(0) += 1;
+            st.bump(enc, kind, region, &format!("VIOLATION different data ({what})"));
             fail(format!("decoded-different-data({what})"), d)
         }
     }
@@ -620,6 +658,13 @@ fn sweep_damage(u: &Universe, enc: &'static str, ids: &[Id], set: MutationSet) -
     let regs = regions_of(&w);
     let mut st = DStats::default();
     let mut found: BTreeMap<String, Found> = BTreeMap::new();
+    // an image whose undamaged read already differs is a round-trip failure (reported by part 1 for
+    // the same value); sweeping it would repeat that failure under every accepted mutation
+    let baseline = catch_unwind(AssertUnwindSafe(|| compare(&w, &w.image)));
+    if !matches!(baseline, Ok(Ok(None))) {
+        st.skipped_images = 1;
+        return Ok((st, Vec::new()));
+    }
     for mu in imgx::all_mutations(w.image.len(), set) {
         if let Some(f) = eval_damage(&w, &regs, mu, &mut st) {
             found.entry(f.sig.clone()).or_insert(f);
@@ -772,6 +817,7 @@ fn main() {
         rep.violation(f.sig, f.detail, f.replay);
     }
 
+    let t_roundtrip = rep.elapsed_s();
     // ---- part 2: damage -----------------------------------------------------------------
     // quick: every CRDT variant x one rich metadata variant x key "k"; thorough: every CRDT variant x
     // every metadata variant x key "k", plus every CRDT variant x 3 metadata variants x the other keys.
@@ -843,7 +889,9 @@ fn main() {
         "roundtrip_evaluations": {"wal": rt_evals[0], "segment": rt_evals[1], "checkpoint": rt_evals[2], "gossip": rt_evals[3], "gossip_other_messages": other_count},
         "roundtrip_distinct_cases": rt_hashes.len(),
         "damage_value_set": if thorough { "every CRDT variant x every metadata variant x key 'k', plus every CRDT variant x 3 metadata variants x the 3 other keys" } else { "every CRDT variant x one rich metadata variant (2-entry vector clock, expiry u64::MAX, rf 255) x key 'k'" },
+        "wall_s_roundtrip_part": t_roundtrip,
         "damage_images": dwork.len(),
+        "damage_images_skipped_because_undamaged_read_differs": ds.skipped_images,
         "damage_evaluations": ds.evaluations,
         "damage_nontrivial": ds.nontrivial,
         "damage_identity_controls": ds.identity,
@@ -853,7 +901,7 @@ fn main() {
         "largest_single_allocation_image_bytes": ds.max_alloc_image,
         "allocation_bound": format!("{} + {} x image bytes", ALLOC_C0, ALLOC_C1),
         "distinct_outcome_classes": ds.outcomes.len(),
-        "damage_outcomes_by_encoding_mutation_region": ds.outcomes,
+        "damage_outcomes_by_encoding_mutation_region": ds.table(),
         "samples": samples,
         "exhaustive": true,
     });
